@@ -18,7 +18,7 @@ for pid in ids:
         pid, p['title'], p['statement'], ', '.join(p['quantifier']['over']), p['quantifier']['text'], p['why_tests_cant'],
         json.dumps(p['anchors'], indent=1))
     taken = []
-    for r in 'abcdefgh':
+    for r in 'abcdefghijklmnop':
         m = '/verif/seeded/%s-%s/meta.json' % (pid, r)
         if os.path.exists(m):
             taken.append(json.load(open(m))['summary'])
